@@ -832,7 +832,7 @@ pub const CONTENT_STRINGS: &[&str] = &[
 
 pub fn content(rng: &mut Rng) -> Content {
     let s = (rng.pick(CONTENT_STRINGS)).to_string();
-    Content { s, html: rng.bool(), stream: if rng.chance(1, 5) { rng.range(1, 3) as u8 } else { 0 } }
+    Content { s, html: rng.bool(), stream: if rng.chance(1, 5) { rng.range(1, 3) as u8 } else { 0 }, fail_stream: false }
 }
 
 /// Any document generator, mixed.
